@@ -35,6 +35,9 @@ type Stream struct {
 	Fixed func() []Case                         // directed cases, run first (may be nil)
 	Gen   func(r *rand.Rand, tier string) Case  // one random case
 	Size  map[string]int                        // default number of random cases per tier
+	// enumerated (exhaustive) streams: case i of EnumSize(tier); Gen is then unused
+	Enum     func(i int, tier string) Case
+	EnumSize func(tier string) int
 }
 
 var streams = map[string]*Stream{}
@@ -199,11 +202,16 @@ func runStream(st *Stream, seed uint64, n int, tier, driverPath string, workers 
 					col.add(st.Name, seed, -1-k, cs, r)
 				}
 			}
-			if st.Gen == nil {
+			if st.Gen == nil && st.Enum == nil {
 				return
 			}
 			for i := w; i < n; i += workers {
-				cs := st.Gen(caseRand(seed, st.Name, i), tier)
+				var cs Case
+				if st.Enum != nil {
+					cs = st.Enum(i, tier)
+				} else {
+					cs = st.Gen(caseRand(seed, st.Name, i), tier)
+				}
 				r, err := d.Ask(cs.Op + " | " + cs.Impl)
 				if err != nil {
 					errs <- err
@@ -257,7 +265,11 @@ func main() {
 		}
 		cnt := *n
 		if cnt < 0 {
-			cnt = st.Size[*tier]
+			if st.Enum != nil {
+				cnt = st.EnumSize(*tier)
+			} else {
+				cnt = st.Size[*tier]
+			}
 		}
 		sum := runStream(st, *seed, cnt, *tier, *driver, *workers)
 		data, _ := json.MarshalIndent(sum, "", " ")
@@ -286,6 +298,8 @@ func main() {
 		var cs Case
 		if *index < 0 {
 			cs = st.Fixed()[-1-*index]
+		} else if st.Enum != nil {
+			cs = st.Enum(*index, *tier)
 		} else {
 			cs = st.Gen(caseRand(*seed, st.Name, *index), *tier)
 		}
